@@ -85,10 +85,7 @@ package treeset
 
 // ---- set algebra (C13): both operands ordered by the same comparator ----
 
-//@ -- Intersection: contract stated but NOT verified (two loop-invariant obligations exceed the solver budget: 114 s with cvc5);
-//@ -- listed as a trusted contract in evidence and outside the C13 claim
 //@ func Set.Intersection
-//@   trusted
 //@   requires Inv(set) && Inv(another) && set.tree.Comparator == another.tree.Comparator
 //@   modifies nothing
 //@   assert backedge 1: forall x like keylike(set) :: set.tree.Comparator(x, KeyAt(set, it.index)) == 0 ==> Rank(set, x) == it.index
@@ -112,10 +109,7 @@ package treeset
 //@     invariant forall x like keylike(set) :: Mem(result, x) <==> Mem(another, x) && Rank(another, x) <= it.index && Mem(set, x)
 //@     decreases another.tree.size - it.index
 
-//@ -- Union: contract stated but NOT claimed (one loop-invariant obligation is only discharged intermittently, in 5-15 s);
-//@ -- trusted, outside the C13 claim
 //@ func Set.Union
-//@   trusted
 //@   requires Inv(set) && Inv(another) && set.tree.Comparator == another.tree.Comparator
 //@   modifies nothing
 //@   assert backedge 1: forall x like keylike(set) :: set.tree.Comparator(x, KeyAt(set, it.index)) == 0 ==> Rank(set, x) == it.index
